@@ -1,4 +1,5 @@
 import AndaVerif.Model.Belief
+import AndaVerif.Model.BeliefTime
 import AndaVerif.Drv.Util
 /-
 Driver of the C20 model (belief projection). One request line in, one response line out.
@@ -15,6 +16,8 @@ Driver of the C20 model (belief projection). One request line in, one response l
   status <ordinal> <a|r|s|e|x>           rewrite its lifecycle status (RETRACT / SUPERSEDE / expiry)
   retract <ordinal> <t|->                RETRACT ASSERTION at instant t (the model ignores t: no clock in the lifecycle stage)
   supersede <old> <new> <t|->            SUPERSEDE ASSERTION old BY new at instant t (same)
+  spell <k>                              harness-side: how the KML route spells the evaluation instant in FOR TIME; `ok`
+  norm <text>                            `time::normalize`: `ok <milliseconds since the epoch>` or `err`
   route <name>                           harness-side marker (which route the real code is driven by); `ok`
   project <target>
   slotproject                            every Proposition of the slot, `|`-separated, then `slot accepted=<props> contested=<0|1>`
@@ -160,6 +163,11 @@ def step (st : St) (line : String) : St × String :=
       ({ st with rows := st.rows ++ [row] }, "ok")
     | _, _, _, _, _, _, _, _, _, _ => (st, "bad-op")
   | ["route", _] => (st, "ok")
+  | ["spell", _] => (st, "ok")
+  | ["norm", text] =>
+    match AndaVerif.BeliefTime.parseInstant text with
+    | some ms => (st, s!"ok {ms}")
+    | none => (st, "err")
   | ["raise", i, c] =>
     match i.toNat?, c.toInt? with
     | some i, some c =>
